@@ -126,6 +126,22 @@ def random_manifest_line(rng, i):
         (" digseed=%d" % rng.randrange(1000)) if rng.random() < 0.7 else "")
 
 
+def presence_matrix_lines():
+    """every combination of optional sections present / absent (metadata, discovery hints, fallback hints, token bits, advisory, attestation
+    digest) x 0 or 2 shards: an encoder that picks a layout from what is present must not lose a section nobody else vouches for"""
+    out = []
+    n = 900000
+    for mask in range(64):
+        for nsh in (0, 2):
+            n += 10
+            meta = "%s/%s" % (hx(b"name"), hx(b"a.txt")) if mask & 1 else "-"
+            disc = "%s/%s/%s/3" % (hx(b"control"), hx(b"tcp"), hx(b"1.2.3.4:5")) if mask & 2 else "-"
+            fb = "%s/9" % hx(b"control://h:1") if mask & 4 else "-"
+            out.append("rt tag=presence%d.%d idseed=%d thr=2 tot=3 exps=%s expf=0 nsh=%d shseed=%d meta=%s disc=%s fb=%s tcb=%d adv=g%d.%d hasdig=%d digseed=%d" % (
+                mask, nsh, n, exps(1700000000), nsh, n, meta, disc, fb, 7 if mask & 8 else 0, 12 if mask & 16 else 0, n + 6, 1 if mask & 32 else 0, n + 7))
+    return out
+
+
 def mut_lines(muts, thorough):
     """TLC's decoder inputs. In the quick tier the bulk classes (every byte at 255 / 0, base64 damage) are logged summarised:
     the verdict needs only the outcome; the informative comparison with the specification's decoder is kept for the other classes"""
@@ -315,6 +331,7 @@ def run(chk):
     pick = singles + (pairs if thorough else rng.sample(pairs, 160))
     rt_lines = [shape_line(s, i + 1) for i, s in enumerate(pick)]
     rt_lines += [random_manifest_line(rng, i) for i in range(4000 if thorough else 300)]
+    rt_lines += presence_matrix_lines()
     log("[gen] %d boundary shapes (%d single, %d pairs) + %d random manifests; %d TLC decoder inputs" % (
         len(pick), len(singles), len(pick) - len(singles), len(rt_lines) - len(pick), len(muts)))
     rt = drive(chk.pid, rt_lines, "roundtrip", "plain")
